@@ -296,6 +296,13 @@ def config_fill_check(ctx, cp):
         for t in range(nt):
             lat, lon = _offset_point(rng, rlat, rlon, 5000.0)
             towers.append({"name": "T%d" % t, "lat": lat, "lon": lon, "z_m": 2.0 + t})
+        if k % 4 == 0:
+            # two DISTINCT masts a few metres apart at a large |longitude| (their lat/lon agree to 1e-6 relative, not absolute):
+            # each keeps its own local coordinates
+            rlat, rlon = rng.choice([(-35.3, 149.1), (64.8, -147.7), (-17.7, 178.0)])
+            towers = [{"name": "M0", "lat": rlat, "lon": rlon, "z_m": 2.0},
+                      {"name": "M1", "lat": rlat + 2.0e-5, "lon": rlon + 6.0e-5, "z_m": 3.0},
+                      {"name": "M2", "lat": rlat - 1.0e-5, "lon": rlon - 9.0e-5, "z_m": 4.0}]
         mode = ("both", "both", "none", "lat-only", "lon-only")[k % 5]
         dom = {"nx": 4, "ny": 4, "xmax": 10.0, "ymax": 10.0, "nz": 2}
         if mode in ("both", "lat-only"):
